@@ -123,6 +123,7 @@ def set_property_contract(fmt, name):
         value = fresh(STR, "value")[0]
         st.frames[-1].env.update({"self": obj, "name": name.replace("_", " ") if name != "is_valid" else name, "value": value, "location": None})
         st.ghost.update({"this": obj, "value": value})
+        st.pc.append(lower_of(ex, lower_of(ex, value.z)) == lower_of(ex, value.z))      # A-STR: str.lower is idempotent (the boolean properties lower the value before and inside _validated_choice)
         st.ghost["old_fields"] = dict(st.heap[obj.oid])
     applicable = name in APPLICABLE[fmt]
     def post_return(ex, st):
